@@ -144,12 +144,17 @@ def shard(acc, tier, idx, n):
         invocations = list(itertools.product(*alts))
         for k in range(1, maxsteps + 1):
             for steps in itertools.product(tpls, repeat=k):
-                for second in (False, True):
+                for second in (False, True, 'zero'):
                     ctr += 1
                     if ctr % n != idx:
                         continue
                     variant = {'operands': {'count': len(sets), 'operand_sets': {'list': sets}}, 'instructions': list(steps)}
-                    if second:
+                    if second == 'zero':
+                        # a first variant that takes no operands: it must not claim an invocation that has operands
+                        if k > 1:
+                            continue
+                        macros = {'mac': [{'instructions': ['nop', 'nop']}, variant]}
+                    elif second:
                         # a first variant with a different arity that must be skipped
                         other_sets = ['reg', 'reg', 'reg']
                         first = {'operands': {'count': 3, 'operand_sets': {'list': other_sets}}, 'instructions': ['nop', 'nop', 'nop']}
